@@ -33,7 +33,11 @@ RULE = ("75 % own family: client offer list = empty | one class | 2-4 distinct c
         "'forced' (an addon sets server.alpn_offers in tls_start_server; the upstream protocol may then be a class the "
         "client did not offer); http2 on/off; modes regular CONNECT, transparent, reverse https, reverse tls, secure web "
         "proxy (outer offers drawn the same way, inner connection tunnelled through the outer TLS session); ClientHello "
-        "segmentation and connect delay from the seed; 25 % riders from the C15/C16 families. non-trivial = a client "
+        "segmentation and connect delay from the seed; in 30 % of the eager cells the origin hangs up around the end of "
+        "its handshake (TCP FIN right after its first flight = after its TLS 1.3 Finished, or close_notify / FIN / both "
+        "as soon as its own handshake completed, 0-50 ms later) and/or an addon spends 1-300 ms in one TLS hook "
+        "(mostly tls_established_server), so that the client handshake starts on a half-closed upstream whose "
+        "protocol is known; 25 % riders from the C15/C16 families. non-trivial = a client "
         "handshake with a non-empty offer list was judged; distinct = abstract event-log digests; states = table cells")
 COMPONENTS_REAL = ["mitmproxy.addons.tlsconfig.alpn_select_callback / TlsConfig.tls_start_client (AppData) / "
                    "tls_start_server (alpn_offers)", "mitmproxy.net.tls.create_client_proxy_context",
@@ -55,11 +59,35 @@ EXPECTED_PROBES = ["judged_inner", "judged_outer", "upstream_known", "upstream_u
                    "offers_empty", "selected_none", "selected_h2", "selected_h3", "selected_h11", "selected_h10",
                    "selected_h09", "selected_unknown", "http2_off", "http2_off_offered_h2", "forced_not_offered",
                    "natural_known", "state_lazy", "state_no_alpn", "state_natural", "state_forced", "mode_swp",
-                   "mode_transparent", "mode_reverse_tls", "client_handshake_failed"]
+                   "mode_transparent", "mode_reverse_tls", "client_handshake_failed", "origin_hangup_flight",
+                   "origin_hangup_done", "slow_tls_hook", "known_upstream_not_open",
+                   "known_upstream_not_open_h2_tempting"]
+
+
+SLOW_HOOKS = ["tls_established_server", "tls_established_server", "tls_established_server", "tls_start_server",
+              "tls_clienthello", "tls_start_client"]
 
 
 def generate(rng, tier):
-    return G.gen_mix(rng, tier, "c18", 0.75)
+    sc = G.gen_mix(rng, tier, "c18", 0.75)
+    if sc.get("family") == "c18" and sc["tags"][0]["state"] != "lazy":
+        # faults around the END of the upstream handshake ("server TLS first" sequence): the origin hangs up
+        # (TCP FIN and/or close_notify) right after its Finished, and/or an addon is slow in one of the TLS hooks,
+        # so that the client handshake starts on a half-closed upstream whose protocol is nevertheless known.
+        r = rng.at("c18-hangup")
+        org = sc["origins"][0]
+        if r.random() < 0.3:
+            if org.get("tls12"):
+                # TLS 1.2: the origin's Finished is its last message, the hang-up follows its completed handshake
+                when = "done" if r.random() < 0.85 else "flight"
+            else:
+                # TLS 1.3: the origin's Finished ends its first flight
+                when = "flight" if r.random() < 0.7 else "done"
+            org["hangup"] = {"when": when, "how": r.choice(["fin", "close_notify", "close_notify_fin"]),
+                             "delay": r.choice([0, 0, 0.001, 0.05])}
+        if r.random() < (0.6 if org.get("hangup") else 0.1):
+            sc["hook_delay"] = {r.choice(SLOW_HOOKS): r.choice([0.001, 0.02, 0.3])}
+    return sc
 
 
 def _cls(a):
@@ -133,6 +161,12 @@ def check(sc, obs):
                 up = conns[0]["alpn"]
         if known:
             probes["upstream_known"] += 1
+            st = hooks[starts[-1]][1] or {}
+            if st.get("server_state") is not None and st["server_state"] != 3:
+                # the upstream had already closed (its side of) the connection when the client handshake started
+                probes["known_upstream_not_open"] += 1
+                if "h2" in offers and http2 and up != "h2":
+                    probes["known_upstream_not_open_h2_tempting"] += 1
             if up is None:
                 probes["upstream_known_none"] += 1
             if forced and up is not None and up not in offers:
@@ -175,4 +209,11 @@ def execute(sc):
     faults = {}
     if any(o.get("force_offers") is not None for o in sc.get("origins", [])):
         faults["addon_sets_upstream_offers"] = 1
+    for c in obs.oconns:
+        if c.get("hangup"):
+            faults["origin_hangup_" + c["hangup"]] = faults.get("origin_hangup_" + c["hangup"], 0) + 1
+            probes["origin_hangup_" + c["hangup"]] += 1
+    if any(e[0] == "hook_delay" for e in obs.events):
+        faults["slow_tls_hook"] = 1
+        probes["slow_tls_hook"] += 1
     return tls_a.finish(sc, obs, viol, probes, nontrivial, states, faults)
